@@ -1,6 +1,6 @@
 (* StrN.v -- the string structure of the model: a str is the list of its UTF-8 bytes (model/Base.v).
    The generated code is parametric in `S : strops`; the ties that need concrete strings use SN. *)
-From PJ.Model Require Import Base.
+From PJ.Model Require Import Base Terms.
 From PJ.Tie Require Import PyPrims.
 Local Open Scope Z_scope.
 
@@ -13,5 +13,7 @@ Definition SN : strops := {|
   s_add := @app N;
   s_rpartition := py_rpartition N.eqb;
   s_lit := map Z.to_N;
-  s_lower := map (fun c => if ((65 <=? c) && (c <=? 90))%N then (c + 32)%N else c) |}.
+  s_lower := map (fun c => if ((65 <=? c) && (c <=? 90))%N then (c + 32)%N else c);
+  s_langtag_ok := valid_langtag;
+  s_rdflib_lex := rdflib_lex |}.
 
